@@ -43,6 +43,7 @@ class Ctx:
         self.samples: List[Any] = []
         self.counts: Dict[str, int] = {}
         self.minima: Dict[str, int] = {}
+        self.deferred_errors: List[str] = []
         self.assumptions: List[str] = []
         self.analysed: Dict[str, Any] = {"functions": [], "modules": sorted(m.rel for m in prog.modules.values() if not m.is_test)}
         self.extra: Dict[str, Any] = {}
@@ -107,9 +108,12 @@ class Ctx:
         Ctx._import_stack.append(mod.__name__)
         try:
             mod.run(sub)
+            sub.check_minima()
+        except AnalysisError as e:
+            # the premise could not be decided: that only matters if this check would otherwise pass (a finding stands on its own)
+            self.deferred_errors.append(f"premise {label} ({mod.__name__.split('.')[-1].upper()}): {e}")
         finally:
             Ctx._import_stack.pop()
-        sub.check_minima()
         keep = (lambda r: True) if only is None else (lambda r: any(r == x or r.startswith(x + "/") or r.endswith("/" + x) for x in only))
         for o in sub.obligations:
             if not keep(o["rule"]):
@@ -131,6 +135,8 @@ class Ctx:
         """Evaluated at the end: with no finding, a rule that matched fewer sites than confirmed is exit 2."""
         if self.findings:
             return
+        if self.deferred_errors:
+            raise AnalysisError(self.deferred_errors[0])
         for name, minimum in self.minima.items():
             got = self.counts.get(name, 0)
             if got < minimum:
